@@ -411,6 +411,83 @@ fn part_b2(rep: &mut Report, tier: Tier) {
         }
         functions += u64::from(any);
     }
+    // (B3) call shapes with compile-time arguments (patterns, rules, schemas …) taken from the functions' own
+    // examples, first argument runtime: inputs = the example input, its one-token edits and short strings. No
+    // oracle is needed — only that the result for an input does not depend on what the SAME compiled program saw before.
+    let mut shapes_run = 0u64;
+    for (name, shape, first) in sweep::example_shapes() {
+        let Some(example_input) = sweep::eval_literal(&first) else { continue };
+        let Value::Bytes(b) = &example_input else { continue };
+        let text = String::from_utf8_lossy(b).to_string();
+        if text.len() > 400 {
+            continue;
+        }
+        let mut inputs: Vec<String> = vec![text.clone(), String::new(), "a".into(), "1".into(), "a 1".into()];
+        let toks: Vec<&str> = text.split(' ').collect();
+        if toks.len() <= 12 {
+            for i in 0..=toks.len() {
+                for ins in ["200", "x"] {
+                    let mut t = toks.clone();
+                    t.insert(i, ins);
+                    inputs.push(t.join(" "));
+                }
+            }
+            for i in 0..toks.len() {
+                let mut t = toks.clone();
+                t.remove(i);
+                inputs.push(t.join(" "));
+            }
+        }
+        inputs.sort();
+        inputs.dedup();
+        inputs.truncate(if tier.thorough() { 40 } else { 24 });
+        let bang = shape.replacen('(', "!(", 1);
+        let src = [format!(".r, .err = {shape}"), format!(".r = {shape}"), format!(".r = {bang}")].into_iter().find(|s| compile(s).is_some());
+        let Some(src) = src else { continue };
+        shapes_run += 1;
+        let _ = &name;
+        let events: Vec<Value> = inputs.iter().map(|t| vv::obj(&[("a0", Value::from(t.as_str()))])).collect();
+        // reference: a FRESHLY COMPILED program on a fresh thread for every input
+        let refs: Vec<Option<(Outcome, Value, Value)>> = events
+            .iter()
+            .map(|e| {
+                let p = compile(&src)?;
+                let e = e.clone();
+                std::thread::spawn(move || guarded(|| {
+                    let mut rt = Runtime::default();
+                    run_on(&mut rt, &p, &e)
+                }).ok()).join().ok().flatten()
+            })
+            .collect();
+        let program = Arc::new(compile(&src).expect("compiles"));
+        for (hi, h) in events.iter().enumerate() {
+            for (ei, e) in events.iter().enumerate() {
+                if hi == ei {
+                    continue;
+                }
+                let Some(want) = &refs[ei] else { continue };
+                pairs += 1;
+                let p = program.clone();
+                let (h2, e2) = (h.clone(), e.clone());
+                let got = std::thread::spawn(move || guarded(|| {
+                    let mut rt = Runtime::default();
+                    let _ = run_on(&mut rt, &p, &h2);
+                    rt.clear();
+                    run_on(&mut rt, &p, &e2)
+                }).ok()).join().ok().flatten();
+                let Some(got) = got else { continue };
+                if !same(want, &got) {
+                    rep.violation(Violation::new(
+                        "C14.shared-program-depends-on-history",
+                        json!({"part": "stdlib-history", "program": src, "history_event": vv::enc(h), "event": vv::enc(e)}),
+                        show3(want),
+                        show3(&got),
+                    ));
+                }
+            }
+        }
+    }
+    rep.set("B3_example_call_shapes_with_histories", shapes_run);
     let _ = differing_refs;
     rep.add("evaluations", pairs);
     rep.add("distinct_nontrivial", pairs);
